@@ -135,6 +135,10 @@ type FnCtx struct {
 	pendingClosed [][2]string
 	closedDecls   []string
 	cands         []string
+	heapAlloc     map[string]string // heap version -> allocation counter when it was created
+	closedNoted   map[string]bool
+	knownBig      map[string]string
+	nonlinear     bool
 	frames        map[string]frameInfo
 	parents       map[string][]string
 	noted         map[string]bool
@@ -579,7 +583,53 @@ func (fc *FnCtx) noteRead(term, row string) {
 func (fc *FnCtx) rd(st *State, name, row string) string {
 	t := fc.get(st, name)
 	fc.noteRead(t, row)
-	return sSel(t, row)
+	v := sSel(t, row)
+	if !strings.HasPrefix(fc.varSort[name], "(Array Int (Array") {
+		fc.closedGround(t, name, v, row)
+	}
+	return v
+}
+
+// rd2 reads element idx of row 'row' of a two-level heap
+func (fc *FnCtx) rd2(st *State, name, row, idx string) string {
+	t := fc.get(st, name)
+	fc.noteRead(t, row)
+	v := sSel(sSel(t, row), idx)
+	fc.closedGround(t, name, v, row+"@"+idx)
+	return v
+}
+
+// closedGround: ground instance of heap closedness for one read: a reference read from heap version t was
+// allocated no later than the moment t was created
+func (fc *FnCtx) closedGround(t, name, v, key string) {
+	vt := heapValType[name]
+	if vt == nil || reBoundVar.MatchString(key) {
+		return
+	}
+	a, ok := fc.heapAlloc[t]
+	if !ok {
+		if strings.HasSuffix(t, "!0") || strings.HasSuffix(t, "!0|") {
+			a = fc.declare(hAlloc+"!0", "Int")
+		} else {
+			return
+		}
+	}
+	if fc.closedNoted == nil {
+		fc.closedNoted = map[string]bool{}
+	}
+	k := t + "#" + key
+	if fc.closedNoted[k] {
+		return
+	}
+	fc.closedNoted[k] = true
+	switch vt.Underlying().(type) {
+	case *types.Pointer, *types.Map, *types.Chan:
+		fc.permFact(sOr(sEq(v, "0"), sApp("isold", v, a)))
+	case *types.Slice:
+		fc.permFact(sAnd(sApp("<=", sApp("sl_arr", v), a), sApp("slwf", v)))
+	case *types.Interface:
+		fc.permFact(sApp("<=", sApp("ipay", v), a))
+	}
 }
 
 // get current term of heap var
@@ -609,6 +659,12 @@ func (fc *FnCtx) setDef(st *State, guard, name, term string) {
 			fc.parents = map[string][]string{}
 		}
 		fc.parents[c] = append(fc.parents[c], cur)
+	}
+	if name != hAlloc {
+		if fc.heapAlloc == nil {
+			fc.heapAlloc = map[string]string{}
+		}
+		fc.heapAlloc[c] = fc.get(st, hAlloc)
 	}
 	fc.addFact("true", sEq(c, term))
 	st.vars[name] = c
